@@ -80,8 +80,8 @@ META = {
                     'kernel model of the recorded call applied to the unit right-hand sides; pygs / pyjac for Gauss-Seidel / SOR / '
                     'Jacobi) for every linear family on real levels within the exact-arithmetic budget of the tier; complex levels, '
                     'point smoothers and CF / FC block Jacobi on BSR levels, levels with a singular diagonal block or a row without '
-                    'exactly one non-zero stored diagonal entry, cf/fc_block_jacobi with non-default f/c iterations on CSR (known '
-                    'finding) and requests beyond the budget are judged by the direct relaxation call only',
+                    'exactly one non-zero stored diagonal entry, cf/fc_block_jacobi with non-default f/c iterations on CSR (the '
+                    'path of the repaired defect bf8780c) and requests beyond the budget are judged by the direct relaxation call only',
                     'solve(accel=...) hands aspreconditioner(cycle) to the Krylov method: for callables of both conventions the '
                     'composed model (C08 plan + C01 loop + this cycle model; theorem accelerated_solve_preconditioner_is_M) is '
                     'compared with what a recording accel receives; named accelerators are observed by C08',
